@@ -107,6 +107,21 @@ type tErr struct {
 
 func (e *tErr) Error() string { return e.kind + strconv.Itoa(e.idx) }
 
+// asTErr: is v (an error result or a recovered panic value) one of the instrumented errors, possibly wrapped so that
+// errors.As still finds it (`fmt.Errorf("…: %w", err)`, pkg/errors.WithMessage)?  An error that only carries the TEXT of
+// ours (`%v`) is not: the caller can no longer match it.
+func asTErr(v interface{}) (*tErr, bool) {
+	err, ok := v.(error)
+	if !ok || err == nil {
+		return nil, false
+	}
+	var te *tErr
+	if errors.As(err, &te) {
+		return te, true
+	}
+	return nil, false
+}
+
 var (
 	confT  = reflect.TypeOf(Conf{})
 	pconfT = reflect.TypeOf(&Conf{})
@@ -370,7 +385,7 @@ func (w *world) defaultFn() []interface{} {
 
 func (w *world) resOf(p interface{}, err error) string {
 	if err != nil {
-		if te, ok := err.(*tErr); ok {
+		if te, ok := asTErr(err); ok {
 			return "err." + te.Error()
 		}
 		if w.bad || w.foreignFill || isValidationErr(err) {
@@ -407,7 +422,7 @@ func (w *world) endStep(res string) {
 func (w *world) guarded(f func() string) (res string) {
 	defer func() {
 		if r := recover(); r != nil {
-			if te, ok := r.(*tErr); ok {
+			if te, ok := asTErr(r); ok {
 				res = "panic." + te.Error()
 			} else if e, ok := r.(error); ok && (w.bad || w.foreignFill || isValidationErr(e)) {
 				w.decodeFails++
@@ -445,6 +460,9 @@ func c18Run(input string) string {
 	if kv["via"] == "reg" {
 		return c18Reg(kv)
 	}
+	if kv["via"] == "facty" {
+		return c18FacTy(kv)
+	}
 	if kv["sess"] == "1" {
 		return c18Sess(kv)
 	}
@@ -464,6 +482,9 @@ func c18Run(input string) string {
 	if kv["via"] == "nest" {
 		return c18Nest(kv, w)
 	}
+	if kv["fillopt"] == "two" || kv["dopt"] == "two" {
+		return c18Opt(kv, w)
+	}
 	k, _ := strconv.Atoi(kv["k"])
 	reg := plugin.NewRegistry()
 	registered := func() (ok bool) {
@@ -472,7 +493,11 @@ func c18Run(input string) string {
 				ok = false
 			}
 		}()
-		reg.Register(ifaceT, "x", w.constructor(), w.defaultFn()...)
+		dflt := w.defaultFn()
+		if kv["dopt"] == "nil" && len(dflt) == 0 {
+			dflt = []interface{}{nil} // an explicit nil default-config function is no default-config function
+		}
+		reg.Register(ifaceT, "x", w.constructor(), dflt...)
 		return true
 	}()
 	if !registered {
@@ -504,6 +529,8 @@ func c18Run(input string) string {
 		var fillOpt []func(interface{}) error
 		if fill {
 			fillOpt = append(fillOpt, w.fillWith(w.u))
+		} else if kv["fillopt"] == "nil" {
+			fillOpt = append(fillOpt, nil) // an explicit nil fillConf is no fillConf
 		}
 		return func() (interface{}, error) { return reg.New(ifaceT, "x", fillOpt...) },
 			func(t reflect.Type) (interface{}, error) { return reg.NewFactory(t, "x", fillOpt...) }
@@ -691,6 +718,8 @@ func (p *tyParser) ty() reflect.Type {
 		return reflect.TypeOf(0)
 	case 'M':
 		return implT
+	case 'R':
+		return reflect.TypeOf((*tErr)(nil)) // implements `error` but is not the type `error`
 	case '*':
 		return reflect.PtrTo(p.ty())
 	case 'F':
@@ -961,6 +990,13 @@ func c18Class(input, obs string) string {
 	kv := drv.KV(input)
 	if kv["via"] == "reg" {
 		return "reg-" + obs
+	}
+	if kv["via"] == "facty" {
+		o := drv.KV(obs)
+		return "facty-" + strings.SplitN(o["nf"], ":", 2)[0] + "-" + o["lf"] + o["fpt"] + "-" + strings.SplitN(o["nw"], ":", 2)[0]
+	}
+	if kv["fillopt"] != "" || kv["dopt"] != "" {
+		return "opt-" + kv["fillopt"] + "-" + kv["dopt"] + "-" + kv["form"] + "-" + strings.Fields(obs + " x")[0][:3]
 	}
 	if kv["sess"] == "1" {
 		return sessClass(input, obs)
@@ -1294,6 +1330,20 @@ func c18GenRounds(r *rand.Rand, tier string, rounds int) []string {
 		out = append(out, parGen(r, parShapes, 200)...)
 	}
 	out = append(out, regCases(r, tier)...)
+	{
+		var valid []string
+		seen := map[string]bool{}
+		for _, c := range plain {
+			sh := c[3:9]
+			cfg, df := sh[1], sh[5]
+			if seen[sh] || (cfg == 'n' && df != 'a') || (cfg == 's' && (df == 'n' || df == 's')) {
+				continue
+			}
+			seen[sh] = true
+			valid = append(valid, sh)
+		}
+		out = append(out, r6Gen(r, tier, valid)...)
+	}
 	if tier == "thorough" {
 		out = append(out, sessGen(r, 60000)...)
 	} else {
